@@ -18,7 +18,7 @@ import (
 
 // Action is one step of a history. Which members are meaningful depends on Op.
 type Action struct {
-	Op string `json:"op"` // define | handle | use | cancel
+	Op string `json:"op"` // define | handle | use | cancel | compile (program calling callable C with X, Step) | exec (program H through Route exec | execctx)
 
 	// define
 	Kind string `json:"kind,omitempty"` // definition kind (see defKinds)
@@ -40,6 +40,7 @@ type Action struct {
 	CKind string `json:"ckind,omitempty"` // what the cancelled evaluation does (see cancelKinds)
 	K     int    `json:"k,omitempty"`     // cancel issued from the step hook before the K-th operation of the evaluation (0 = when it is blocked / before the call)
 	Park  bool   `json:"park,omitempty"`  // the hook parks the interpreter until EvalWithContext has returned
+	Then  int    `json:"then,omitempty"`  // cancel: program (index+1) executed at once after the cancellation, through Route exec | execctx
 }
 
 // Case is a complete history (the replay format).
@@ -266,6 +267,55 @@ func (m *machine) useEval(t *rapid.T) {
 	m.do(t, a)
 }
 
+// compileProg compiles a program around a usable callable; execProg executes
+// one of the compiled programs (compile once, execute many).
+func (m *machine) compileProg(t *rapid.T) {
+	if m.full() || len(m.e.progs) >= 4 {
+		t.Skip("enough programs")
+	}
+	e := m.e
+	var ok []int
+	for i, c := range e.calls {
+		if why := e.usable(c, "eval"); why == "" {
+			ok = append(ok, i)
+		}
+	}
+	if len(ok) == 0 {
+		t.Skip("nothing usable")
+	}
+	a := Action{Op: "compile"}
+	a.C = rapid.SampledFrom(ok).Draw(t, "callable")
+	a.X = rapid.IntRange(-9, 9).Draw(t, "x")
+	if e.calls[a.C].factory {
+		a.Step = rapid.IntRange(-3, 5).Draw(t, "step")
+	}
+	m.do(t, a)
+}
+
+func (m *machine) execProg(t *rapid.T) {
+	if m.full() {
+		return
+	}
+	e := m.e
+	var ok []int
+	for i, p := range e.progs {
+		if why := e.usable(p.c, "eval"); why == "" {
+			ok = append(ok, i)
+		} else {
+			m.ctx.Excluded(why)
+		}
+	}
+	if len(ok) == 0 {
+		t.Skip("no program")
+	}
+	a := Action{Op: "exec", Route: "exec"}
+	if rapid.IntRange(0, 2).Draw(t, "ctx") == 0 {
+		a.Route = "execctx"
+	}
+	a.H = rapid.SampledFrom(ok).Draw(t, "program")
+	m.do(t, a)
+}
+
 func (m *machine) useHost(t *rapid.T) {
 	if m.full() {
 		return
@@ -331,6 +381,13 @@ func (m *machine) cancel(t *rapid.T) {
 		}
 	case "expired":
 	}
+	if len(e.progs) > 0 && rapid.IntRange(0, 9).Draw(t, "thenexec") < 6 {
+		a.Then = 1 + rapid.IntRange(0, len(e.progs)-1).Draw(t, "thenprog")
+		a.Route = "exec"
+		if rapid.IntRange(0, 2).Draw(t, "thenctx") == 0 {
+			a.Route = "execctx"
+		}
+	}
 	m.do(t, a)
 }
 
@@ -360,6 +417,8 @@ func run(ctx *vf.Ctx) {
 			"use-eval": m.useEval,
 			"use-host": m.useHost,
 			"cancel":   m.cancel,
+			"compile":  m.compileProg,
+			"exec":     m.execProg,
 		})
 		ctx.Eval()
 		e := m.e
